@@ -891,6 +891,9 @@ func (r *Runner) trapCallback(ctx context.Context, callback, name string) {
 	r.lastExit = r.exit
 	r.stmts(ctx, file.Stmts)
 	r.exit, r.lastExit = oldExit, oldLastExit // traps on EXIT or ERR should not modify the result
+	if err := ctx.Err(); err != nil {
+		r.exit.fatal(err) // except that a cancellation noticed inside the trap must not be lost
+	}
 }
 
 func (r *Runner) flattenAssigns(args []*syntax.Assign) iter.Seq[*syntax.Assign] {
